@@ -347,6 +347,7 @@ func (bs *blockState) call(ins ssa.Instruction, cc *ssa.CallCommon) Val {
 	forceInline := fr.contract != nil && fr.contract.Inline[fn.Name()]
 	if c, ok := ex.P.contracts[name]; ok && !forceInline && fn != ex.top {
 		ex.usedContracts[name] = true
+		bs.pendingBindings = bindings
 		return bs.applySpec(c, shortFuncName(fn), args, resultTypes(resType), fn, pos)
 	}
 	if c, ok := ex.P.libs[name]; ok {
@@ -599,6 +600,17 @@ func (bs *blockState) applySpec(c *Contract, display string, args []Val, rts []t
 		}
 		pre.Vars[names[i]] = bs.tm(a, "", pos)
 	}
+	// captured variables of a closure under contract are visible to its contract by name
+	if fn != nil && len(bs.pendingBindings) == len(fn.FreeVars) {
+		for i, fv := range fn.FreeVars {
+			if p, ok := bs.pendingBindings[i].(*Ptr); ok {
+				if t, ok := bs.load(p, pos).(Term); ok && t.Sort != "Nil" {
+					pre.Vars[fv.Name()] = t
+				}
+			}
+		}
+	}
+	bs.pendingBindings = nil
 	for _, g := range stateComponents {
 		pre.Vars[g] = bs.st.glob[g]
 	}
